@@ -1,6 +1,6 @@
 (* C09 — printing a syntax tree and parsing the text back are inverse.  Property theorems only. *)
 From Coq Require Import List NArith Bool String Ascii Lia.
-From RV Require Import Syntax GenSyntax SyntaxTables.
+From RV Require Import Syntax GenSyntax SyntaxTables SyntaxProofs SyntaxBridge SyntaxInst.
 Import ListNotations.
 Local Open Scope string_scope.
 
@@ -48,7 +48,73 @@ Theorem C09_printer_shape :
    ("AmbiguousParseBranch", [])].
 Proof. vm_compute. repeat split; reflexivity. Qed.
 
+(* the printer's precedence numbers and associativity classes stand for the parser's levels: in every operand
+   position (outer precedence, side) the printer leaves unparenthesised exactly the node kinds that the parser
+   function reading that position can produce.  One statement per node kind; each is recomputed from the tables. *)
+Theorem C09_positions_match_parser_levels :
+  (forall o, t_uop o = true -> t_un_post o = true ->
+     ctx_ok t_assoc t_lvN t_precs (t_un_prec o) (t_side "UnaryOperation" 0) 1) /\
+  (forall o, t_uop o = true -> t_un_post o = false ->
+     ctx_ok t_assoc t_lvN t_precs (t_un_prec o) (t_side "UnaryOperation" 1) 2) /\
+  (forall o, t_bop o = true ->
+     ctx_ok t_assoc t_lvN t_precs (t_bin_prec o) (t_side "BinaryOperation" 0) (lctx t_blv o) /\
+     ctx_ok t_assoc t_lvN t_precs (t_bin_prec o) (t_side "BinaryOperation" 1) (rctx t_blv o)) /\
+  (ctx_ok t_assoc t_lvN t_precs P_tern (t_side "TernaryConditional" 0) 12 /\
+   ctx_ok t_assoc t_lvN t_precs P_tern (t_side "TernaryConditional" 1) 13 /\
+   ctx_ok t_assoc t_lvN t_precs P_tern (t_side "TernaryConditional" 2) 13) /\
+  (ctx_ok t_assoc t_lvN t_precs P_sub (t_side "ArraySubscript" 0) 1 /\
+   ctx_ok t_assoc t_lvN t_precs P_sub (t_side "ArraySubscript" 1) 1) /\
+  ctx_ok t_assoc t_lvN t_precs P_mem (t_side "Member" 0) 1 /\
+  (ctx_ok t_assoc t_lvN t_precs (outer_of_call 0) (t_side "Call" 0) 1 /\
+   ctx_ok t_assoc t_lvN t_precs (outer_of_call 1) (t_side "Call" 1) 13) /\
+  ctx_ok t_assoc t_lvN t_precs P_cast (t_side "Cast" 0) 2 /\
+  ctx_ok t_assoc t_lvN t_precs top_outer (side_of_name (snd top_call)) 14.
+Proof. exact (conj C_post (conj C_pre (conj C_bin (conj C_tern (conj C_sub (conj C_mem (conj C_call (conj C_cast C_top)))))))). Qed.
+
+(* ---- every expression tree, of any depth and any number of call arguments, over identifiers, literals,
+        prefix / postfix / binary operators, the conditional, assignments, the comma, subscripts, members, calls and
+        casts to a named type: the token text the printer model gives it is read back by the parser model as the same
+        tree, with nothing left over.  Excluded (known finding template-argument-reading): texts in which `>` is
+        directly followed by `(`. ---- *)
+Theorem C09_expression_roundtrip :
+  forall (G : string -> bool) (e : expr),
+    t_wf G e -> gt_paren (toks (t_print e)) = false ->
+    t_parse G (toks (t_print e)) = Ok e [].
+Proof. exact t_roundtrip. Qed.
+
+(* the text is the level-directed minimal parenthesisation *)
+Theorem C09_printer_is_level_directed :
+  forall (G : string -> bool) (e : expr), t_wf G e -> toks (t_print e) = t_raw e.
+Proof. exact t_print_raw. Qed.
+
+(* ---- non-vacuity ---- *)
+Definition ex_G (t : string) : bool := String.eqb t "T0".
+Definition ex_tree : expr :=
+  EBin "Assignment" (ESub (EId "x") (EBin "Sequence" (EId "a") (EId "b")))
+    (ETern (EBin "LessThan" (EUn "Minus" (EUn "Minus" (EId "y"))) (ELit true "1"))
+           (ECall (EMem (ELit true "1") "m") [EBin "Assignment" (EId "p") (EId "q"); ECast "T0" (EUn "PostfixIncrement" (EId "z"))])
+           (EBin "Subtract" (EId "u") (EBin "Subtract" (EId "v") (EId "w")))).
+
+Example C09_example_wf : t_wf ex_G ex_tree /\ gt_paren (toks (t_print ex_tree)) = false.
+Proof. split; [vm_compute; intuition reflexivity | vm_compute; reflexivity]. Qed.
+
+Example C09_example_text :
+  render (t_print ex_tree) = "x[(a, b)] = - -y < 1 ? (1).m(p = q, (T0)z++) : u - (v - w)".
+Proof. vm_compute. reflexivity. Qed.
+
+Example C09_example_parse : t_parse ex_G (toks (t_print ex_tree)) = Ok ex_tree [].
+Proof. vm_compute. reflexivity. Qed.
+
+(* the excluded shape is real: the model does not decide it *)
+Example C09_template_shape_unmodelled :
+  let e := EBin "GreaterThan" (EBin "LessThan" (EId "x") (EId "y")) (EBin "Equality" (EId "z") (EId "w")) in
+  render (t_print e) = "x < y > (z == w)" /\ gt_paren (toks (t_print e)) = true /\ t_parse ex_G (toks (t_print e)) = Unm.
+Proof. vm_compute. repeat split; reflexivity. Qed.
+
 Print Assumptions C09_spellings_agree.
 Print Assumptions C09_spellings_distinct.
 Print Assumptions C09_parser_levels.
 Print Assumptions C09_printer_shape.
+Print Assumptions C09_positions_match_parser_levels.
+Print Assumptions C09_expression_roundtrip.
+Print Assumptions C09_printer_is_level_directed.
